@@ -88,6 +88,32 @@ fn unproj_eqr_range() {
   assert!((lon.to_bits() >> 63) == (x.to_bits() >> 63) && lon.abs() <= 8.0 * PI_OVER_FOUR, "C17 longitude carries the sign of x and |lon| <= 2pi");
 }
 
+/// unproj in the polar caps: latitude in the cap with the sign of y; the longitude stays in the facet
+/// of x and on the same side of the facet's central meridian as x (Collignon de-projection divides
+/// the in-facet abscissa by a positive number and clamps it to [-1, 1]).
+fn ax_acos_cap(_x: f64) -> f64 { let r: f64 = kani::any(); kani::assume(r >= 1.15026199151093 && r <= HALF_PI); r }
+#[kani::proof]
+#[kani::stub(f64::asin, ax_asin)]
+#[kani::stub(f64::acos, ax_acos_cap)]
+fn unproj_cap_side() {
+  let x: f64 = kani::any(); let y: f64 = kani::any();
+  kani::assume(x >= -8.0 && x < 8.0 && ((y > 1.0 && y <= 2.0) || (y < -1.0 && y >= -2.0)));
+  let xa = x.abs();
+  kani::assume(xa < 8.0);
+  let odd = (((xa as u64) | 1) as f64);          // central meridian of the facet, in units of pi/4
+  kani::assume((xa - odd).abs() <= (2.0 - y.abs()) + 4.5e-16); // inside the gore, or numerically just outside its edge (what proj returns on the meridians k*pi/2)
+  let (lon, lat) = unproj(x, y);
+  assert!((lat.to_bits() >> 63) == (y.to_bits() >> 63) && lat.abs() >= 0.7297 && lat.abs() <= HALF_PI, "C17 polar cap unprojects to |lat| in [asin(2/3), pi/2] with the sign of y");
+  assert!((lon.to_bits() >> 63) == (x.to_bits() >> 63), "C17 longitude carries the sign of x");
+  let centre = odd * PI_OVER_FOUR;
+  let la = lon.abs();
+  assert!(la >= (odd - 1.0) * PI_OVER_FOUR && la <= (odd + 1.0) * PI_OVER_FOUR, "C17 longitude stays in the facet of x");
+  if xa < odd { assert!(la <= centre, "C17 west half of a facet unprojects west of its central meridian"); }
+  if xa > odd { assert!(la >= centre, "C17 east half of a facet unprojects east of its central meridian"); }
+  kani::cover!(y.abs() > 1.9999999999999, "next to a pole");
+  kani::cover!(xa - odd == y.abs() - 2.0, "exactly on the west edge of the gore");
+}
+
 /// base_cell_from_proj_coo(x, y) for every point of the projected domain: the returned base cell's
 /// diamond (centre from the integer geometry, half-diagonal 1) contains the point.
 #[kani::proof] fn proj_base_cell_contains_band() { base_cell_contains(0) }
